@@ -48,6 +48,9 @@ FRAME_FILES = {
     "other/o.go": "package other\n\n// O is an interface of a package that is not configured.\ntype O interface{ M() }\n",
     "mocksx/decoy.go": "package mocksx\n\n// a directory whose name has the output directory as a prefix\nvar Decoy = 1\n",
     "sentinel.ro": "read-only sentinel\n",
+    # module / workspace files are not designated outputs either (the harness runs with GOWORK=off)
+    "go.work": "go 1.23\n\nuse .\n",
+    "go.work.sum": "",
 }
 PROBES = os.path.join(os.path.dirname(os.path.abspath(__file__)), "..", "probes", "pipeline")
 # custom templates (valid ones, and the natural faults of the exec / format / schema stages): see probes/pipeline/README.txt
@@ -70,6 +73,9 @@ SHARED_VARIANTS = {
 # conforming value at the less specific level / value of another JSON type that PRINTS the same at the more specific one
 LOOKALIKE = {"bool": {"testify": ("unroll-variadic", False, "false"), "matryer": ("skip-ensure", False, "false")},
              "int": {"testify": ("mock-build-tags", "1", 1), "matryer": ("mock-build-tags", "1", 1)}}
+# mockery is run the way a user runs it: the go command's default -mod=readonly (vlib's scratch default is -mod=mod, under
+# which the go command itself may rewrite go.mod / go.sum and a tool doing the same on purpose could not be told apart)
+USER_ENV = {"GOFLAGS": ""}
 _dirseq = iter(range(1, 10 ** 9))
 _dirlock = threading.Lock()
 
@@ -286,6 +292,12 @@ def build(root, case, ch, profiles, clean=False):
             pc.setdefault("interfaces", {})["NoSuchInterface"] = {}
         conf["packages"][f"{MOD}/{PKG[f]}"] = pc
     designated = {f: out_rel(lay, f) for f in FILES}
+    if fault["kind"] == "input" and fault["class"] == "untidy-module":
+        # incomplete but resolvable go.mod / go.sum: nothing may rewrite them, whatever the run does otherwise
+        extra, gomod, gosum = pipetrace.untidy_module(fault["feature"], PKG["f1" if fault["pos"] == "first" else "f3"],
+                                                      GO_SUM_MOD, (REPO / "go.sum").read_text())
+        files.update(extra)
+        files["go.mod"], files["go.sum"] = gomod, gosum
     return files, conf, designated, failspec
 
 
@@ -341,7 +353,7 @@ class Replayer:
                 d = newdir(ctx, f"ref{pid}-")
                 files, conf, des, _ = build(d, case, ch, self.profiles, clean=True)
                 self.materialise(d, files, conf)
-                r = pipetrace.run(ctx, d)
+                r = pipetrace.run(ctx, d, env=USER_ENV)
                 with self.runlock:
                     self.runs.append((r, f"reference-profile-{pid}-run{k}"))
                 got = {}
@@ -376,7 +388,7 @@ class Replayer:
     def materialise(d, files, conf):
         (d / "go.mod").write_text(GO_SUM_MOD)
         (d / "go.sum").write_bytes((REPO / "go.sum").read_bytes())
-        write_files(d, files)
+        write_files(d, files)           # an untidy-module world overrides go.mod / go.sum here
         (d / ".mockery.yml").write_text(json.dumps(conf, indent=1))
         os.chmod(d / "sentinel.ro", 0o444)
 
@@ -405,7 +417,7 @@ class Replayer:
                 files[des[f] + "/keep.txt"] = "a file inside a directory that occupies the output path\n"
         self.materialise(d, files, conf)
         before, mbefore = tree_hash(d), modes(d)
-        r = pipetrace.run(ctx, d, fail=failspec)
+        r = pipetrace.run(ctx, d, env=USER_ENV, fail=failspec)
         after, mafter = tree_hash(d), modes(d)
         with self.runlock:
             self.runs.append((r, item["id"]))
@@ -421,7 +433,7 @@ class Replayer:
             out.append((dict(base_sig, kind="panic"), detail))
         # ---- exit class
         got_exit = "zero" if r.code == 0 else "nonzero"
-        if got_exit != exp["exit"]:
+        if exp["exit"] != "any" and got_exit != exp["exit"]:
             out.append((dict(base_sig, kind="exit-status", expected=exp["exit"], got=got_exit,
                              missing_iface=bool(w["missing"])), detail))
         # ---- designated paths: old / new / other
@@ -461,11 +473,15 @@ class Replayer:
                 out.append((dict(base_sig, kind="frame", what="parent-directory-replaced"), dict(detail, path=rel, before=b, after=a)))
                 continue
             what = "created" if b is None else "deleted" if a is None else "modified"
+            if rel in pipetrace.MODULE_FILES:
+                out.append((dict(base_sig, kind="frame", what=what, cls="module-file", path=rel, untidy=fault.get("feature", "-")),
+                            dict(detail, path=rel, before=b, after=a)))
+                continue
             out.append((dict(base_sig, kind="frame", what=what, cls=("source" if rel.endswith(".go") else "dir" if a == "DIR" or b == "DIR" else "file")),
                         dict(detail, path=rel, before=b, after=a)))
         if not out and not os.environ.get("VERIF_KEEP"):
             shutil.rmtree(d, ignore_errors=True)       # thousands of worlds in the thorough tier
-        summary = {"id": item["id"], "fs0": w["fs0"], "force": w["force"], "fault": {k: fault[k] for k in ("kind", "file", "files", "at")},
+        summary = {"id": item["id"], "fs0": w["fs0"], "force": w["force"], "fault": {k: fault[k] for k in ("kind", "file", "files", "at", "class", "feature")},
                    "variant": ch["variant"], "layout": prof["layout"], "exit": r.code, "expected": exp["exit"],
                    "outcome": outcome, "allowed": exp["final"]}
         return out, summary
@@ -484,6 +500,8 @@ def cls(w, f):
 def stratum(case):
     w = case["world"]
     fl = w["fault"]
+    if fl["kind"] == "input":
+        return ("input", fl["class"], fl["feature"], fl["pos"], any(w["fs0"][f] != "absent" for f in FILES))
     if fl["kind"] == "shared":
         # how many of the files that share the cause could be clobbered by a run that mishandles the later ones
         nw = sum(1 for f in fl["files"] if writable(w, f))
@@ -528,6 +546,7 @@ def vacuity(cases):
         "either-old-or-new": lambda w, e: any(sorted(e["final"][f]) == ["new", "old"] for f in FILES),
         "zero exit expected": lambda w, e: e["exit"] == "zero",
         "a missing interface": lambda w, e: w["missing"],
+        "an untidy module": lambda w, e: w["fault"]["kind"] == "input" and w["fault"]["class"] == "untidy-module" and e["exit"] == "any",
         "a cause shared by all files": lambda w, e: w["fault"]["kind"] == "shared" and len(w["fault"]["files"]) == 3,
         "a cause shared by two files with the third writable": lambda w, e: w["fault"]["kind"] == "shared" and len(w["fault"]["files"]) == 2
         and any(sorted(e["final"][f]) == ["new", "old"] for f in FILES),
@@ -631,12 +650,14 @@ def run(ctx):
     ctx.cov["evaluations"] += len(items)
     # measured coverage of the replayed worlds
     stats = {"failed_stage": 0, "failpoint": 0, "blocked_by_existing": 0, "overwritten_with_force": 0, "dir_at_path": 0,
-             "written_before_failure_elsewhere": 0, "not_reached_after_failure": 0, "zero_exit": 0, "shared_cause": 0,
+             "written_before_failure_elsewhere": 0, "not_reached_after_failure": 0, "zero_exit": 0, "shared_cause": 0, "untidy_module": 0,
              "shared_cause_all_writable": 0}
     for s in summaries:
         fl = s["fault"]
         if fl["kind"] in ("stage", "shared"):
             stats["failed_stage" if fl["at"] in STEPS[:4] else "failpoint"] += 1
+        if fl["kind"] == "input":
+            stats["untidy_module"] += 1
         if fl["kind"] == "shared":
             stats["shared_cause"] += 1
             stats["shared_cause_all_writable"] += all(writable(s, f) for f in fl["files"])
